@@ -75,7 +75,8 @@ impl FixtureDatabase {
         None
     }
 
-    /// Get the fixture definition at a specific line (if the line is a fixture definition)
+    /// Get the fixture definition whose function spans a specific line
+    /// (the `def` line itself or, for multi-line signatures, a continuation line)
     fn get_fixture_definition_at_line(
         &self,
         file_path: &Path,
@@ -83,7 +84,7 @@ impl FixtureDatabase {
     ) -> Option<FixtureDefinition> {
         for entry in self.definitions.iter() {
             for def in entry.value().iter() {
-                if def.file_path == file_path && def.line == line {
+                if def.file_path == file_path && def.line <= line && line <= def.end_line {
                     return Some(def.clone());
                 }
             }
